@@ -97,6 +97,7 @@ Definition expected_set_content : list string := [
 
 Definition expected_leading_whitespace_reads : list string := [
   "core/src/defaults/parser.rs:parse_asm_instructions";
+  "core/src/defaults/reconstructor.rs:lacks_line_break";
   "core/src/defaults/reconstructor.rs:nonbreaking_ws_len";
   "core/src/defaults/reconstructor.rs:process_cursors";
   "core/src/defaults/reconstructor.rs:reconstruct";
